@@ -254,7 +254,7 @@ def run(tier):
         pick = []
         for tag, idxs in by_tag.items():
             if len(idxs) > budget.get(tag, 500):
-                idxs = sorted(r.sample(idxs, budget[tag]))
+                idxs = sorted(r.sample(idxs, budget.get(tag, 500)))
             pick += idxs
         terms, used = [], []
         for i in pick:
